@@ -501,6 +501,7 @@ func oneChunk(n int) []int {
 
 func runC03(c *hx.Ctx) {
 	x := &c03{c: c, oracle: map[string]bool{}}
+	defer x.finishPanics()
 	if c.Replay != "" {
 		x.replay(c.Replay)
 		return
@@ -571,6 +572,8 @@ func (x *c03) replay(path string) {
 			x.gatedIntact()
 		case "closebehind":
 			x.closeBehindSend()
+		case "stall":
+			x.stalledSend(kv(f, "kind"), kv(f, "trigger"), kv(f, "big") == "1")
 		case "tcp":
 			stream := hx.Unhx(kv(f, "stream"))
 			lim := int64(hx.Atoi(kv(f, "lim")))
